@@ -107,13 +107,17 @@ def c10_2(ctx, r):
             ud = ctx.rd(fn).unique_def(n, recv.id)
             ok = False
             detail = None
-            if ud and isinstance(ud[1], ast.Call) and ud[1].args and isinstance(ud[1].args[0], ast.Name):
-                cfgvar = ud[1].args[0].id
-                ud2 = ctx.rd(fn).unique_def(ud[0], cfgvar)
-                if ud2 and isinstance(ud2[1], ast.Call):
-                    txt = render(ctx, fn, ud2[1])
+            if ud and isinstance(ud[1], ast.Call) and ud[1].args:
+                a0 = ud[1].args[0]
+                # the configuration handed to the constructor: a local bound to ClusterConfig(**load_data(...)), or that call written in place
+                src0 = a0
+                if isinstance(a0, ast.Name):
+                    ud2 = ctx.rd(fn).unique_def(ud[0], a0.id)
+                    src0 = ud2[1] if ud2 else None
+                if isinstance(src0, ast.Call):
+                    txt = render(ctx, fn, src0)
                     detail = txt
-                    ok = "load_data(" in txt and (ctx.cg.site_of(fn, ud2[1]).constructs or "").endswith("ClusterConfig")
+                    ok = "load_data(" in txt and (ctx.cg.site_of(fn, src0).constructs or "").endswith("ClusterConfig")
             r.check(ok, "the handle that is promoted was built from cluster_config.json loaded in this lock hold", key_of(fn, "promote fresh state"), s.loc,
                     "the object being promoted is not constructed from state loaded inside the same lock hold (stale submitter field may be tested)", chain=detail)
     # a refused promotion writes nothing: besides the promotion itself (which writes only after taking the empty field) no
